@@ -128,6 +128,12 @@ def build(tier='quick'):
             add('arb-float-custom-sanitizer-validated', 'full', decl_src(fam, 'sanitize(with = |x| x), validate(finite), derive(Arbitrary)'), False,
                 'float: Arbitrary with custom sanitizer and validation')
 
+    # ---- float Eq / Ord: refused unless `finite` is declared, whatever else guards the value
+    from . import witcat
+    for w in witcat.c12_witnesses(tier):
+        if '-rejected' in w['id'] or '-accepted' in w['id'] or 'needs' in w['id']:
+            ws.append(dict(w, id='c08-' + w['id']))
+
     # ---- structure
     for fam in FAM_INNER:
         inner = FAM_INNER[fam]
